@@ -12,12 +12,18 @@ Require PPLV.Rows.COTreeIter PPLV.Rows.COTreeUpdate PPLV.Rows.COTreeMain PPLV.Ro
 Lemma unstored_reads_zero_stmt : forall s i, s_mem i (sents s) = false -> s_get i s = 0%Z.
 Proof. exact unstored_reads_zero_s. Qed.
 
-(* The faithful model (like the code) is NOT representation independent on two mixed operations:
-   findings C16-lax-mixed and C16-trunc-copy. *)
-Lemma lax_mixed_refuted_stmt : exists rho h, unsafe rho h = true /\ outputs rho h <> outputs (fun _ => false) h.
-Proof. exists reg0_sparse, lax_witness. split; [exact lax_witness_unsafe | exact lax_mixed_refuted_l]. Qed.
-Lemma trunc_copy_refuted_stmt : exists rho h, unsafe rho h = true /\ outputs rho h <> outputs (fun _ => false) h.
-Proof. exists reg0_sparse, trunc_witness. split; [exact trunc_witness_unsafe | exact trunc_copy_refuted_l]. Qed.
+(* linear_combine_lax with a dense operand no longer stores zeroes (finding C16-lax-mixed repaired): the mixed
+   linear_combine_lax(y, 0, c2, ...) is a coefficient-wise operation like every other binary operation *)
+Lemma lax_mixed_refines_abs_stmt : forall c2 f l x y, SparseProofs.good x -> SparseProofs.good y ->
+  bop_ok (BLax0 c2 f l) x y = true ->
+  SparseProofs.good (apply_bop (BLax0 c2 f l) x y) /\
+  aeq (abs_e (apply_bop (BLax0 c2 f l) x y)) (a_combine 0 c2 f l (abs_e x) (abs_e y)).
+Proof. intros c2 f l x y Hx Hy Hok. apply (ExprProofs.bop_spec_all (BLax0 c2 f l) x y Hx Hy Hok). reflexivity. Qed.
+(* the sized copy constructor is a resize of the abstract row for every pair of representations
+   (finding C16-trunc-copy repaired) *)
+Lemma copy_sized_refines_abs_stmt : forall sp n e, SparseProofs.good e ->
+  SparseProofs.good (copy_sized sp n e) /\ aeq (abs_e (copy_sized sp n e)) (a_resize n (abs_e e)).
+Proof. intros sp n e H. apply SparseProofs.copy_sized_good; [exact H|reflexivity]. Qed.
 
 (* ---- rows: every mutator commutes with the abstraction to (size, nat -> Z), every observer is a
    function of the abstraction (a_uop / a_bop / a_obs1 / a_obs2 map an operation to its a_* counterpart) ---- *)
@@ -29,11 +35,11 @@ Lemma sparse_refines_abs_stmt : forall u s, s_wf s -> s_nz s -> uop_ok u (ES s) 
    s_nz (match apply_uop u (ES s) with ES t => t | ED _ => s end)) /\
   aeq (abs_e (apply_uop u (ES s))) (ExprProofs.a_uop u (abs_e (ES s))).
 Proof. exact ExprProofs.sparse_refines_abs. Qed.
-(* binary operations, all four combinations of representations (the two unsafe ones excluded) *)
+(* binary operations, all four combinations of representations, no exception *)
 Lemma mixed_binary_refines_abs_stmt : forall b x y, SparseProofs.good x -> SparseProofs.good y ->
-  bop_ok b x y = true -> bop_unsafe b x y = false ->
+  bop_ok b x y = true ->
   SparseProofs.good (apply_bop b x y) /\ aeq (abs_e (apply_bop b x y)) (ExprProofs.a_bop b (abs_e x) (abs_e y)).
-Proof. exact ExprProofs.bop_spec_all. Qed.
+Proof. intros b x y Hx Hy Hok. apply (ExprProofs.bop_spec_all b x y Hx Hy Hok). reflexivity. Qed.
 Lemma observers_refine_abs_stmt : forall o e, SparseProofs.good e -> apply_obs1 o e = SparseProofs.a_obs1 o (abs_e e).
 Proof. intros o e H. apply SparseProofs.obs1_refines, H. Qed.
 Lemma observers2_refine_abs_stmt : forall o x y, SparseProofs.good x -> SparseProofs.good y ->
@@ -41,11 +47,10 @@ Lemma observers2_refine_abs_stmt : forall o x y, SparseProofs.good x -> SparsePr
 Proof. intros o x y Hx Hy. apply SparseProofs.obs2_refines; assumption. Qed.
 
 (* for every history and any two assignments of representations to the registers (mixed operands
-   included) all observations are equal, provided neither run uses one of the two refuted combinations *)
-Lemma dense_sparse_interchangeable_stmt :
-  forall rho1 rho2 h, unsafe rho1 h = false -> unsafe rho2 h = false -> outputs rho1 h = outputs rho2 h.
-Proof. exact ExprProofs.dense_sparse_interchangeable. Qed.
-(* the hypotheses are satisfiable by a history that mixes representations and uses binary operations *)
+   included) all observations are equal -- unconditionally *)
+Lemma dense_sparse_interchangeable_stmt : forall rho1 rho2 h, outputs rho1 h = outputs rho2 h.
+Proof. exact ExprProofs.dense_sparse_interchangeable_all. Qed.
+(* a history that mixes representations and uses binary operations (sanity: it produces two observations) *)
 Example interchangeable_hyp_sat :
   let h := [New 0 4; New 1 4; Un 0 (USet 1 3%Z); Un 1 (USet 2 5%Z); Bin 0 1 (BCombine 2 (-3) 0 4);
             Bin 1 0 (BLaxScale 2 0 3); Obs2 0 1 OCompare; Obs1 0 OIter] in
